@@ -6,6 +6,7 @@ import (
 	"flag"
 	"fmt"
 	"os"
+	"strings"
 	"time"
 )
 
@@ -28,6 +29,7 @@ type Result struct {
 	Counters           map[string]int64 `json:"counters"`
 	Info               map[string]any   `json:"info"`
 	vkeys              map[string]bool
+	vkinds             map[string]int
 }
 
 var (
@@ -69,7 +71,15 @@ func (r *Result) Violate(key, msg string, replay any) {
 		return
 	}
 	r.vkeys[key] = true
-	if len(r.Violations) >= 25 {
+	kind := key
+	if i := strings.IndexByte(key, ' '); i >= 0 {
+		kind = key[:i]
+	}
+	if r.vkinds == nil {
+		r.vkinds = map[string]int{}
+	}
+	r.vkinds[kind]++
+	if r.vkinds[kind] > 3 || len(r.Violations) >= 60 {
 		r.ViolationsDropped++
 		return
 	}
